@@ -243,6 +243,11 @@ impl<'tcx> Ex<'tcx> {
         let def = tcx.adt_def(did);
         let kind = if def.is_enum() { "enum" } else if def.is_union() { "union" } else { "struct" };
         let mut variants = vec![];
+        let discrs: Vec<(VariantIdx, u128)> = if def.is_enum() {
+            def.discriminants(tcx).map(|(i, d)| (i, d.val)).collect()
+        } else {
+            vec![]
+        };
         for (vi, v) in def.variants().iter_enumerated() {
             let mut fields = vec![];
             for f in v.fields.iter() {
@@ -257,6 +262,7 @@ impl<'tcx> Ex<'tcx> {
             variants.push(J::O(vec![
                 ("name".into(), s(v.name.to_string())),
                 ("index".into(), i(vi.as_usize())),
+                ("discr".into(), discrs.iter().find(|(i2, _)| *i2 == vi).map(|(_, d)| s(format!("{}", d))).unwrap_or(J::Null)),
                 ("fields".into(), J::A(fields)),
             ]));
         }
@@ -613,10 +619,36 @@ impl<'tcx> Ex<'tcx> {
         // literal value
         let is_str = matches!(ty.kind(), ty::Ref(_, inner, _) if inner.is_str());
         if is_str {
-            if let Const::Val(cv, _) = c.const_ {
+            let cv = match c.const_ {
+                Const::Val(cv, _) => Some(cv),
+                other => other.eval(tcx, te, rustc_span::DUMMY_SP).ok(),
+            };
+            if let Some(cv) = cv {
                 if let ConstValue::Slice { .. } | ConstValue::Indirect { .. } = cv {
                     if let Some(bytes) = cv.try_get_slice_bytes_for_diagnostics(tcx) {
                         o.push(("s".into(), s(String::from_utf8_lossy(bytes).to_string())));
+                    }
+                }
+            }
+        } else if let ty::Ref(_, inner, _) = ty.kind() {
+            // &[u8; N]: byte templates of format_args!
+            if let ty::Array(et, _) = inner.kind() {
+                if *et == tcx.types.u8 {
+                    let cv = match c.const_ {
+                        Const::Val(cv, _) => Some(cv),
+                        other => other.eval(tcx, te, rustc_span::DUMMY_SP).ok(),
+                    };
+                    if let Some(ConstValue::Scalar(rustc_middle::mir::interpret::Scalar::Ptr(ptr, _))) = cv {
+                        let (prov, off) = ptr.prov_and_relative_offset();
+                        if let Some(rustc_middle::mir::interpret::GlobalAlloc::Memory(a)) = tcx.try_get_global_alloc(prov.alloc_id()) {
+                            let a = a.inner();
+                            let start = off.bytes_usize();
+                            let end = a.size().bytes_usize();
+                            if start <= end {
+                                let bytes = a.inspect_with_uninit_and_ptr_outside_interpreter(start..end);
+                                o.push(("b".into(), s(bytes.iter().map(|b| *b as char).collect::<String>())));
+                            }
+                        }
                     }
                 }
             }
